@@ -426,7 +426,7 @@ fn validate_tuple(span: Span, tuple: &Tuple, nt: &TypeRepr) -> NormResult<()> {
                 }
             }
         }
-        _ => unreachable!("expected a tuple type, but found `{}`", nt),
+        _ => return_err!(span, "expected a tuple type, but found `{}`", nt),
     }
 
     Ok(())
